@@ -538,6 +538,8 @@ class Expander:
         pieces.extend(sig_pieces)
         if "external_body" in flags:
             pieces.insert(0, Piece("ins", "#[verifier::external_body]\n"))
+        if opt.get("rlimit"):
+            pieces.insert(0, Piece("ins", "#[verifier::rlimit(%s)]\n" % opt["rlimit"]))
         if "nodecreases" in flags:
             # termination is not claimed for this function (verifier-only attribute)
             pieces.insert(0, Piece("ins", "#[verifier::exec_allows_no_decreases_clause]\n"))
